@@ -281,6 +281,8 @@ def h_wav(ctx, cfg):
     extra = False
   ctx.prove(not extra, "exactly-frames*channels-samples")
   ctx.prove(ncl() == 1, "file-closed-once-after-exhaustion", "close() called %d times" % ncl())
+  ctx.prove(type(ws.bits) is int and type(ws.channels) is int and ws.rate == rate and ws.channels == ch and ws.bits == bits,
+            "attributes-mirror-the-header", "after exhaustion: rate=%r channels=%r bits=%r" % (ws.rate, ws.channels, ws.bits))
   d = 1 << (bits - 1)
   n = 0
   for f in frames:
